@@ -69,6 +69,13 @@ class C04Oracle:
         self.stats = {}
         self.pre = None
         self.widths = [Fr(float(b)) - Fr(float(a)) for a, b in learner._bbox]
+        if case.get("domain") == "hull":
+            hullset = {tuple(map(float, p)) for p in case["hull"]}
+            # in the learner's order, restricted to the true extreme points (a mutant may list more)
+            self.corners = [tuple(map(float, b)) for b in learner._bounds_points if tuple(map(float, b)) in hullset]
+            self.corners += sorted(hullset - set(self.corners))
+        else:
+            self.corners = [tuple(map(float, b)) for b in learner._bounds_points]
 
     def count(self, k, n=1):
         self.stats[k] = self.stats.get(k, 0) + n
@@ -87,7 +94,8 @@ class C04Oracle:
         tri = l._tri
         self.pre = {
             "data": set(l.data), "pending": set(l.pending_points),
-            "missing": [b for b in l._bounds_points if b not in l.data and b not in l.pending_points],
+            # the corners of the domain: for a hull domain the extreme points the case was built from (NOT the learner's own list)
+            "missing": [b for b in self.corners if b not in l.data and b not in l.pending_points],
             "tri": None if tri is None else {"verts": list(tri.vertices), "simps": set(tri.simplices)},
             "losses": dict(l._losses), "subs": len(l._subtriangulations),
         }
